@@ -36,7 +36,7 @@ ASSUMPTIONS = [
     "the two pad bytes of the undocumented AT5 outer header are not 'covered bytes' and are not corrupted",
     "the exhaustive 1..2-byte comparison of calculate() is a plain function comparison, not simulation; the 3-byte enumeration and the induction on length of the property text are not reproduced",
 ]
-PROBES = ["c06.single_bit", "c06.double_bit", "c06.burst", "c06.check_bytes_only", "c06.after_intact_original", "c06.special_register_frame", "c06.intact_special_register", "c06.prefix_valued_address", "c06.prefix_like_payload", "c06.long_frame", "c06.in_prefix", "c06.in_length", "c06.in_crc", "c06.in_payload", "c06.waited_for_bytes", "c06.function_audit"]
+PROBES = ["c06.single_bit", "c06.double_bit", "c06.burst", "c06.check_bytes_only", "c06.after_intact_original", "c06.special_register_frame", "c06.intact_special_register", "c06.prefix_valued_address", "c06.prefix_like_payload", "c06.special_final_check_value", "c06.long_frame", "c06.in_prefix", "c06.in_length", "c06.in_crc", "c06.in_payload", "c06.waited_for_bytes", "c06.function_audit"]
 EXHAUSTIVE = True
 TRUSTED_BASE = ["ref/crc.py (bitwise CRC-16/MODBUS)", "ref/wire4.py, ref/wire5.py (framing)"]
 
@@ -141,6 +141,25 @@ def _special_frames(gen: int):
         if len(found) == 2:
             break
     out = [("reg%s" % k.hex(), v) for k, v in sorted(found.items())]
+    # frames whose FINAL check value is a special one (0x0000, 0xFFFF, equal bytes, one zero byte): a receiver that treats
+    # "expected value is zero / falsy" or compares the two bytes loosely goes wrong exactly here. Found by search over the
+    # last two payload bytes.
+    want = {0x0000: "crc0000", 0xFFFF: "crcffff", 0x5555: "crc5555", 0x00A7: "crc00a7", 0xA700: "crca700"}
+    head = bytes(rng.randrange(256) for _ in range(10))
+    hdr = (w.ADDR_CLIENT, w.ADDR_CONSOLE, 0x33, types[1], 0, 12)
+    base = reg_of(bytes(hdr) + head)
+    got_final = {}
+    for a in range(256):
+        r1 = (base >> 8) ^ table[(base ^ a) & 0xFF]
+        for b in range(256):
+            r2 = (r1 >> 8) ^ table[(r1 ^ b) & 0xFF]
+            if r2 in want and r2 not in got_final:
+                got_final[r2] = head + bytes((a, b))
+    for val, nm in sorted(want.items()):
+        if val in got_final:
+            fr = w.frame(w.ADDR_CLIENT, w.ADDR_CONSOLE, 0x33, types[1], got_final[val])
+            assert fr[-2:] == val.to_bytes(2, "big"), (fr[-2:].hex(), hex(val))
+            out.append((nm, fr))
     # covered bytes that look like the frame prefix: frames for another client (the console forwards them) whose
     # destination / source address is 0x55 or 0xAA - the span the CRC covers still starts at the address byte
     pay = bytes(rng.randrange(256) for _ in range(12))
@@ -333,6 +352,8 @@ def execute(sc: dict) -> dict:
         probes["c06.prefix_valued_address"] = 1
     if str(info.get("kind", "")).startswith("unknown:pre"):
         probes["c06.prefix_like_payload"] = 1
+    if str(info.get("kind", "")).startswith("unknown:crc"):
+        probes["c06.special_final_check_value"] = 1
     if str(info.get("kind", "")).startswith("long:") and info.get("frame_len", 0) > 1040:
         probes["c06.long_frame"] = 1
     hl = 8 if gen == 4 else 20
